@@ -5,6 +5,7 @@ f18_0:
   ret
   call f22_3
   call f30_0
+  mov wvsv0@GOTPCREL(%rip),%rax
   ret
 .section .text.f18_1,"ax",@progbits
 .globl f18_1
@@ -34,4 +35,7 @@ f18_3:
   call f26_0
   call f25_3
   call f29_0
+  mov wvsv1@GOTPCREL(%rip),%rax
+  mov wvsv0(%rip),%rax
+  mov wvsv1(%rip),%rax
   ret
